@@ -161,6 +161,10 @@ pub fn run_check(id: &str, tier: Tier) -> i32 {
             pvcore::hang::set_context(chk.property, &p.scenario, &pp);
         }
         let mut lim = Limits::new(p.dev_budget, p.wall_s, tier == Tier::Quick);
+        if p.params["seq"].as_bool().unwrap_or(false) {
+            // executions that move hundreds of MiB each: one at a time
+            lim.threads = 1;
+        }
         lim.known = load_findings()
             .into_iter()
             .filter(|f| f.status == "open" && f.property == chk.property)
